@@ -126,15 +126,26 @@ print(json.dumps({'zonedbpy': {n: hash_name(n) for n in names}, 'keys': sorted(z
     duplink = ['Zone\tTest/Alpha\t1:00\t-\tAST', 'Zone\tTest/Beta\t2:00\t-\tBST', 'Zone\tTest/Gamma\t3:00\t-\tCST',
                'Link\tTest/Alpha\tLegacy/Moved', 'Link\tTest/Gamma\tLegacy/Kept', 'Link\tTest/Beta\tLegacy/Moved']
     from .. import zicoracle
-    for sname, lines in (('similar-names-no-link', similar2), ('duplicate-link-lines', duplink)):
+    chain = ['Zone\tTest/Real\t1:00\t-\tRST', 'Zone\tTest/Other\t3:00\t-\tVST', 'Link\tTest/Real\tTest/First', 'Link\tTest/First\tTest/Second', 'Link\tTest/Other\tTest/Elsewhere']
+    undefined = ['Zone\tTest/Real\t1:00\t-\tRST', 'Link\tTest/Real\tTest/First', 'Link\tTest/Nowhere\tTest/Dangling']
+    for sname, lines in (('similar-names-no-link', similar2), ('duplicate-link-lines', duplink), ('link-to-a-link', chain), ('link-to-nothing', undefined)):
         w = os.path.join(work, sname)
         os.makedirs(w)
         zout, zrc, zmsg = zicoracle.zic_compile(lines, w)
         for scope in ('basic', 'extended'):
             label = '%s:%s' % (sname, scope)
             res, out, err = compiler.run_compiler(lines, w, scope, flags=('arduino', 'python'))
+            arduino = True
             if res is None:
-                chk.notes.append('%s: refused by the compiler (%s)' % (label, (err[1] or '').strip().splitlines()[-1][:120] if err and err[1] else err))
+                # the C++ generator may refuse what the Python generator, zones.txt and tzdb.json accept: audit those outputs
+                res, out, err2 = compiler.run_compiler(lines, w, scope, flags=('python',), tag='-pyonly')
+                arduino = False
+                if res is None:
+                    chk.notes.append('%s: refused by the compiler (%s)' % (label, (err[1] or '').strip().splitlines()[-1][:120] if err and err[1] else err))
+                    continue
+                for a, t in sorted(res['emitted_links'].items()):
+                    if t not in res['emitted_zones']:
+                        chk.violation('%s:link:%s:dangling' % (label, a), 'the compiler keeps link %s -> %s in its output database although %s is not an emitted zone' % (a, t, t), {'link': a, 'target': t})
                 continue
             # python tables: the record filed under a name is the record of that name; one record per emitted zone
             rc, o, e, _ = common.run_cmd([common.PY, '-c', 'import sys, os, json, importlib; d = sys.argv[1]; open(os.path.join(d, "__init__.py"), "a").close(); sys.path.insert(0, os.path.dirname(d)); z = importlib.import_module(os.path.basename(d) + ".zone_infos"); print(json.dumps({k: v["name"] for k, v in z.ZONE_INFO_MAP.items()}))', os.path.join(out, 'python')], env=compiler.tool_env(), timeout=120)
@@ -159,8 +170,10 @@ print(json.dumps({'zonedbpy': {n: hash_name(n) for n in names}, 'keys': sorted(z
             kid_names = [n for _s, _v, n in kids]
             if len(kid_names) != len(set(kid_names)) or len({s for s, _v, _n in kids}) != len(kids):
                 chk.violation('%s:arduino:duplicate-id-constant' % label, 'a kZoneId constant is emitted twice: %s' % sorted(kids)[:6], {})
-            # links: an emitted link denotes what zic makes of the same lines
+            # links: an emitted link denotes an emitted zone, namely the one zic makes of the same lines
             for a, t in sorted(res['emitted_links'].items()):
+                if t not in res['emitted_zones']:
+                    chk.violation('%s:link:%s:dangling' % (label, a), 'emitted link %s -> %s, which is not an emitted zone' % (a, t), {'link': a, 'target': t})
                 fa, ft = os.path.join(zout, a), os.path.join(zout, t)
                 if zrc == 0 and os.path.exists(fa) and os.path.exists(ft) and open(fa, 'rb').read() != open(ft, 'rb').read():
                     chk.violation('%s:link:%s' % (label, a), 'emitted link %s -> %s, but zic resolves %s to a different zone' % (a, t, a), {'link': a, 'target': t})
